@@ -61,12 +61,18 @@ def eval_motor(ctx, cases):
             if not c.get('warm'):
                 m.pwm = c['D']          # (a warmed-up motor already has this duty cycle: it is not assigned again)
             m.compute_torque()
+            if c.get('T_unit'):
+                # the driving torque re-expressed (through the setter, or in place) before the current is computed from it
+                if c.get('T_via') == 'setter':
+                    m.driving_torque = m.driving_torque.to(c['T_unit'])
+                else:
+                    m.driving_torque.to(c['T_unit'], inplace=True)
             T = sim.qsi(m.driving_torque)
             cur = None
             if c['i0'] is not None:
                 m.compute_electric_current()
                 cur = sim.qsi(m.electric_current)
-            out = ('ok', T, cur, m.driving_torque.unit)
+            out = ('ok', T, cur, c['tmax'][1] if c.get('T_unit') else m.driving_torque.unit)
         except Exception as ex:  # noqa: BLE001
             out = ('err', type(ex).__name__, str(ex)[:100])
         impl.append(out)
@@ -208,6 +214,10 @@ def run_C08(ctx):
             c['warm'] = 'same number'
             c['warm_unit'] = rng.choice([u for u in SI['AngularSpeed'] if u != c['w'][1]])
             c['stream'] = 're-used motor: same speed number in another unit first'
+        if c.get('stream') is None and c['i0'] is not None and rng.random() < 0.2:
+            c['T_unit'] = rng.choice([u for u in SI['Torque'] if u != c['tmax'][1]])
+            c['T_via'] = rng.choice(['setter', 'inplace'])
+            c['stream'] = 'driving torque re-expressed before the current is computed'
         cases.append(c)
     # a duty cycle of exactly zero (0, 0.0, -0.0): dead zone with current data, plain T_max(1 - w/w0) without
     for _ in range(ctx.budget(6, 60)):
